@@ -260,7 +260,7 @@ func run(r *harness.Run) {
 		pls := []string{"pl-promote-carol", "pl-demote-bob", "pl-state-default-0", "pl-events-default-50", "pl-kick-100"}
 		cons := []string{"topic-alice", "topic-bob", "topic-carol", "name-bob"}
 		var as, bs [][]string
-		bs = append(bs, nil)
+		bs = append(bs, []string{})
 		for _, c := range cons {
 			bs = append(bs, []string{c})
 		}
